@@ -145,6 +145,7 @@ def run(repo, rep):
     rep.clause("C18-n", "numbers are converted by their own type (no float detour that truncates integer options)")
     rep.clause("C18-p", "the port names the reader admits for axi0_port / axi1_port are the names OPTIONS.md documents (the admitted collection is resolved to enum members)")
     rep.clause("C18-q", "each selection chain (section found / built-in default / no file / unknown section) tests and reports the selection its section name was built from")
+    rule_round10(repo, rep)
     rule_round9(repo, rep)
     rep.clause("C18-o", "bundled system configurations: clock x port width x clock scale equals the bandwidth documented above the section")
     rule_round8(repo, rep)
@@ -1054,3 +1055,46 @@ def rule_round9(repo, rep):
                 rep.check(str(norm(r.exc.args[1])) == sel, "C18-q", gsite, f"the unknown-section error of the `{hs[0].args[0].id}` chain reports `{sel}`", f"`{norm(r.exc)}` reports another selection")
     if n < 4:
         raise AnalysisError(f"_get_vela_config: {n} chain tests found")
+
+
+def rule_round10(repo, rep):
+    """(r) the internal defaults depend on the accelerator alone (OPTIONS.md: 'internal-default' is defined per accelerator family): every test
+    in _set_default_sys_config / _set_default_mem_mode reads only the accelerator (is_ethos_u65_system / accelerator_config).
+    (s) the selection looked up is the selection given: ArchitectureFeatures stores its system_config / memory_mode parameters unchanged (a
+    section name may contain any character, 'Part.Name' included), and nothing else writes the two members."""
+    rep.clause("C18-r", "the internal-default system configuration and memory mode are chosen by the accelerator alone: the tests of the two default functions read nothing else")
+    am = repo.mod("architecture_features")
+    n = 0
+    for fname in ("_set_default_sys_config", "_set_default_mem_mode"):
+        for cls in ("ArchitectureFeatures", "Imx93ArchitectureFeatures"):
+            fn = am.functions.get(f"{cls}.{fname}") or repo.mod("vela").functions.get(f"{cls}.{fname}")
+            if fn is None:
+                continue
+            path = AF if f"{cls}.{fname}" in am.functions else "ethosu/vela/vela.py"
+            for t in [x.test for x in ast.walk(fn) if isinstance(x, (ast.If, ast.IfExp, ast.While))]:
+                n += 1
+                reads = {str(norm(a)) for a in ast.walk(t) if isinstance(a, ast.Attribute) and isinstance(a.value, ast.Name) and a.value.id == "self"}
+                extra = sorted(r for r in reads if r not in ("self.is_ethos_u65_system", "self.accelerator_config"))
+                rep.check(not extra, "C18-r", f"{path}:{cls}.{fname}", f"`{str(norm(t))[:70]}` reads the accelerator only",
+                          f"also reads {extra}: the default then depends on what the other selection resolved to (a U65 system configuration whose AXI1 port is not Dram silently gets the "
+                          "Shared-SRAM layout instead of the documented Dedicated_Sram default)")
+    if n < 2:
+        raise AnalysisError(f"default configuration functions: {n} tests found")
+    rep.clause("C18-s", "the section looked up is named by the selection as given: system_config / memory_mode are stored unchanged from the constructor's parameters and written nowhere else")
+    n = 0
+    for modname in ("architecture_features", "vela"):
+        m = repo.mod(modname)
+        for q, fn in m.functions.items():
+            for st in ast.walk(fn):
+                if isinstance(st, (ast.Assign, ast.AugAssign)):
+                    tg = st.targets if isinstance(st, ast.Assign) else [st.target]
+                    for t in tg:
+                        for member in ("system_config", "memory_mode"):
+                            if isinstance(t, ast.Attribute) and t.attr == member and isinstance(t.value, ast.Name) and t.value.id == "self":
+                                n += 1
+                                params = [a.arg for a in fn.args.args]
+                                ok = isinstance(st, ast.Assign) and isinstance(st.value, ast.Name) and st.value.id == member and member in params and q.endswith("__init__")
+                                rep.check(ok, "C18-s", f"{m.rel}:{q}", f"`{str(norm(st))[:80]}` stores the parameter unchanged",
+                                          f"the stored selection is `{str(norm(st.value))[:60]}`: a legal section name (e.g. 'Board_rev1.1') is looked up under another name - rejected, or resolved to an unrelated section")
+    if n < 2:
+        raise AnalysisError(f"system_config / memory_mode stores: {n} found")
